@@ -15,6 +15,7 @@ import (
 	"os"
 	"path/filepath"
 	"strings"
+	"sync"
 
 	"github.com/benoitkugler/webrender/utils"
 	"github.com/benoitkugler/webrender/verifsim/simrt"
@@ -42,11 +43,21 @@ type Scenario struct {
 }
 
 var (
-	corpusDir string
-	scenarios = map[string]*Scenario{}
+	corpusDir   string
+	scenarios   = map[string]*Scenario{}
+	scenariosMu sync.Mutex
+	freeMode    bool // free-running goroutines (race probe): no simrt events
 )
 
+func event(kind uint64, vals ...uint64) {
+	if !freeMode {
+		simrt.Event(kind, vals...)
+	}
+}
+
 func loadScenario(name string) (*Scenario, error) {
+	scenariosMu.Lock()
+	defer scenariosMu.Unlock()
 	if s, ok := scenarios[name]; ok {
 		return s, nil
 	}
@@ -101,6 +112,7 @@ func (s *Scenario) lookup(url string) (*SiteFile, string, bool) {
 // ---- run-wide seam state
 
 type seams struct {
+	mu       sync.Mutex
 	faults   []Fault
 	fired    map[string]int
 	fetches  []FetchRec
@@ -108,7 +120,15 @@ type seams struct {
 }
 
 func (sm *seams) fire(kind string) {
+	sm.mu.Lock()
 	sm.fired[kind]++
+	sm.mu.Unlock()
+}
+
+func (sm *seams) record(rec FetchRec) {
+	sm.mu.Lock()
+	sm.fetches = append(sm.fetches, rec)
+	sm.mu.Unlock()
 }
 
 // applyFault transforms (data, meta) according to the first matching fault.
@@ -195,8 +215,8 @@ func (sm *seams) fetcher(op string, sc *Scenario) utils.UrlFetcher {
 		rec := FetchRec{Op: op, Seq: mySeq, URL: url}
 		done := func(outcome string, n int) {
 			rec.Outcome, rec.Len = outcome, n
-			sm.fetches = append(sm.fetches, rec)
-			simrt.Event(0xfe7c, simrt.HashString(op), uint64(mySeq), simrt.HashString(url), simrt.HashString(outcome), uint64(n))
+			sm.record(rec)
+			event(0xfe7c, simrt.HashString(op), uint64(mySeq), simrt.HashString(url), simrt.HashString(outcome), uint64(n))
 		}
 		if strings.HasPrefix(strings.ToLower(url), "data:") {
 			r, err := utils.DefaultUrlFetcher(url)
@@ -338,22 +358,26 @@ func (b *chunkBody) Close() error { return nil }
 
 func (t *simTransport) RoundTrip(req *http.Request) (*http.Response, error) {
 	url := req.URL.String()
+	t.sm.mu.Lock()
 	mySeq := t.seq
 	t.seq++
+	t.sm.mu.Unlock()
 	rec := FetchRec{Op: "http", Seq: mySeq, URL: url}
 	done := func(outcome string, n int) {
 		rec.Outcome, rec.Len = outcome, n
-		t.sm.fetches = append(t.sm.fetches, rec)
-		simrt.Event(0x477b, uint64(mySeq), simrt.HashString(url), simrt.HashString(outcome), uint64(n))
+		t.sm.record(rec)
+		event(0x477b, uint64(mySeq), simrt.HashString(url), simrt.HashString(outcome), uint64(n))
 	}
 	var sc *Scenario
 	var file *SiteFile
+	scenariosMu.Lock()
 	for _, s := range scenarios {
 		if f, _, ok := s.lookup(url); ok {
 			sc, file = s, f
 			break
 		}
 	}
+	scenariosMu.Unlock()
 	flt := t.sm.match("http", mySeq, url, t.transient)
 	hdr := http.Header{}
 	resp := &http.Response{Proto: "HTTP/1.1", ProtoMajor: 1, ProtoMinor: 1, Header: hdr, Request: req}
